@@ -257,6 +257,8 @@ inductive ROp where
   | multi (ks : List Key) (d : Nat) | req (k : Key) | dump
   -- value access next to a live guard on the same type (guard acquired, access, guard dropped)
   | gset (k : Key) (v : Nat) | gget (k : Key)
+  -- `get_multiple_mut` (panicking accessor)
+  | multiP (ks : List Key) (d : Nat)
   deriving Repr
 
 /-- What the lock probes (`try_borrow_mut` / `try_borrow`) can tell about a cell. -/
@@ -383,6 +385,10 @@ def step (r : Reg) : ROp → Reg × Out
     match tryGetMultipleMut r ks with
     | .ok cs => (writeAll r cs d, .vals (cs.map fun c => ((cellAt r c.1 c.2).map (·.val)).getD 0))
     | .error e => (r, .err e)
+  | .multiP ks d =>                        -- `try_get_multiple_mut::<T>().unwrap_or_else(StateError::panic)`
+    match tryGetMultipleMut r ks with
+    | .ok cs => (writeAll r cs d, .vals (cs.map fun c => ((cellAt r c.1 c.2).map (·.val)).getD 0))
+    | .error _ => (r, .panic)
   | .req k => (r, if contains r k then .ok else .err .required)
   | .dump => (r, .dump (r.map Scope.view))
   | .gset k v =>                           -- `let g = try_borrow::<T>()?; let o = set_value::<T>(v); drop(g); o`
@@ -500,6 +506,10 @@ def specStep (sp : Spec) : ROp → Spec × Out
         (sp.addAll ks d, .vals (ks.map fun k => (sp.lookup k).getD 0))
       else (sp, .err .notFound)
     else (sp, .err .multi)
+  | .multiP ks d =>
+    if ks.Nodup ∧ ks.all (fun k => (sp.lookup k).isSome) = true then
+      (sp.addAll ks d, .vals (ks.map fun k => (sp.lookup k).getD 0))
+    else (sp, .panic)
   | .req k => (sp, if (sp.lookup k).isSome then .ok else .err .required)
   | .dump => (sp, .dump sp)
   -- a conflicting access to a guarded type is refused and changes nothing (never redirected outwards)
@@ -563,6 +573,7 @@ def ROp.parse? : Sexp → Option ROp
   | .list [.atom "parget", d, k] => do pure (.parGet (← nat? d) (← key? k))
   | .list [.atom "parins", d, k, v] => do pure (.parIns (← nat? d) (← key? k) (← nat? v))
   | .list [.atom "multi", ks, d] => do pure (.multi (← keys? ks) (← nat? d))
+  | .list [.atom "multip", ks, d] => do pure (.multiP (← keys? ks) (← nat? d))
   | .list [.atom "req", k] => (key? k).map .req
   | .list [.atom "dump"] => some .dump
   | .list [.atom "gset", k, v] => do pure (.gset (← key? k) (← nat? v))
